@@ -305,14 +305,24 @@ func (clnt *Clnt) send() {
 
 		case req := <-clnt.reqout:
 			verifPoint("clnt.send.dequeued", req)
+			// A reply carrying this request's tag may arrive before the
+			// request is written (a confused server repeating a reply);
+			// the caller then recycles the request while it is still here.
+			req.Lock()
+			tc := req.Tc
+			req.Unlock()
+			if tc == nil {
+				continue
+			}
+
 			if clnt.Debuglevel > 0 {
-				clnt.logFcall(req.Tc)
+				clnt.logFcall(tc)
 				if clnt.Debuglevel&DbgPrintPackets != 0 {
-					log.Println("{-{", clnt.Id, fmt.Sprintf("%v", req.Tc.Pkt))
+					log.Println("{-{", clnt.Id, fmt.Sprintf("%v", tc.Pkt))
 				}
 
 				if clnt.Debuglevel&DbgPrintFcalls != 0 {
-					log.Println("{{{", clnt.Id, req.Tc.String())
+					log.Println("{{{", clnt.Id, tc.String())
 				}
 			}
 
@@ -321,8 +331,8 @@ func (clnt *Clnt) send() {
 			// the response (freeing the Fcall back to the pool) before
 			// send finishes writing, allowing PackT* to overwrite Pkt
 			// while conn.Write is still reading from it.
-			pkt := make([]byte, len(req.Tc.Pkt))
-			copy(pkt, req.Tc.Pkt)
+			pkt := make([]byte, len(tc.Pkt))
+			copy(pkt, tc.Pkt)
 			for buf := pkt; len(buf) > 0; {
 				n, err := clnt.conn.Write(buf)
 				if err != nil {
@@ -447,7 +457,9 @@ func (clnt *Clnt) ReqAlloc() *Req {
 
 func (clnt *Clnt) ReqFree(req *Req) {
 	clnt.FreeFcall(req.Tc)
+	req.Lock()
 	req.Tc = nil
+	req.Unlock()
 	req.Rc = nil
 	req.Err = nil
 	req.Done = nil
